@@ -149,6 +149,16 @@ CHECKS.update({
          "four repository files must decode to the transposition of their LH5 payload."),
    note="Trusted: TLC, delharc for decompressing the reference payload. Decode half limited to the four repository files (no LH5 encoder)."),
 })
+CHECKS.update({
+ "C19": dict(
+   category="model_checking", design_ref="4 (C19)", technique="TLC exhaustive scaled mixer model + TLC validation of per-frame sample runs of the real emulator",
+   text=("Mixer.tla models the mixer in exact integers (queue, in-frame cursor, latched speaker level; process on every clock advance, padding at frame "
+         "end, host drain). MC_Mixer explores every partition of two scaled frames into clock steps with speaker writes at any step under drain "
+         "policies always/never/any and checks: exactly spf samples per drained frame, each sample carries a level that was in force within one sample "
+         "period of its time, queue < 2 spf. On the real emulator bits 3/4 of port 0xFE are toggled at chosen T-states for rates 8000..384000, volumes, "
+         "AY on/off, both machines and three drain policies; MixerTrace judges count, finiteness, the volume bound, and the position of every edge."),
+   note="Trusted: TLC, the clock hook, the mapping of sample values to the four speaker/MIC levels (beeper-only configurations). Sampling over write plans."),
+})
 NOT_YET = {}
 
 HOOK_COMMITS = ["71990aa"]
